@@ -15,6 +15,7 @@ import StimModel.Model.Rewrite
 import StimModel.Model.Noise
 import StimModel.Model.Text
 import StimModel.Model.DemText
+import StimModel.Model.Record
 /-! Line-protocol dispatcher: one request line in, one answer line out. -/
 namespace Stim.Driver
 open Stim Stim.Wire
@@ -561,6 +562,74 @@ def fsimM2d (toks : List String) : String :=
           else go (i + 1) more
         | i, _ => s!"bad-request at {i}"
       go 0 rest
+  | _ => "bad-request"
+
+/-- `fsim dets <circuit> <k> (<det> <obs>)*` : detection events / observable flips WITHOUT the measurement record (what `stim detect`
+    prints).  A shot is possible iff its (detectors ++ observables) vector lies in the affine space  parities(offset) + span(parities(columns))
+    (`parities` is linear: `detectors_linear`; membership is decided exactly: `gfMember_iff`).  Observables with Pauli targets are masked. -/
+def fsimDets (toks : List String) : String :=
+  match parseCircuit toks with
+  | some (c, kS :: rest) =>
+    match kS.toNat? with
+    | none => "bad-request"
+    | some k =>
+      if rest.length != 2 * k then "bad-request" else
+      let refRun := runCircuit c (.bias false)
+      match refRun.err with
+      | some e => "err " ++ e
+      | none =>
+      let (cols, _, certain) := faultColumns c
+      let offset := (certainRun c [] certain).flips
+      let (d0, o0, pobs) := parities c []
+      let nd := d0.length
+      let no := o0.foldl (fun acc x => max acc (x.1 + 1)) 0
+      let vec (flips : List Bool) : List Bool :=
+        let (d, o, _) := parities c flips
+        d ++ (List.range no).map fun i => if pobs.contains i then false else ((o.find? (·.1 == i)).map (·.2)).getD false
+      let colsV := cols.map vec
+      let basis := gfSpan colsV
+      let basisD := gfSpan (colsV.map fun v => v.take nd ++ List.replicate no false)
+      let off := vec offset
+      let rec go : Nat → List String → String
+        | _, [] => s!"ok dim={basis.length}"
+        | i, d :: o :: more =>
+          let db := bitsOf d
+          let ob := bitsOf o
+          if db.length != nd then s!"shot {i} detector-count {db.length} vs {nd}" else
+          if o != "*" && ob.length != no then s!"shot {i} observable-count {ob.length} vs {no}" else
+          let obm := (List.range no).map fun i => if pobs.contains i || o == "*" then false else ob.getD i false
+          -- with unknown observables, project them out of the basis too
+          let proj (v : List Bool) : List Bool := if o == "*" then v.take nd ++ List.replicate no false else v
+          let b := if o == "*" then basisD else basis
+          if !(gfMember b (xorBits (db ++ obm) (proj off))) then s!"shot {i} impossible-detection-events" else go (i + 1) more
+        | i, _ => s!"bad-request at {i}"
+      go 0 rest
+  | _ => "bad-request"
+
+/-- `record run <max_lookback> <op>*` — the streaming measurement record (`stim::MeasureRecord`), operation by operation.
+    ops: `r0`/`r1` record one result, `m<bits>` record several (`m-` none), `f` flush (answers `w<bits>`), `l<k>` lookback (answers the
+    bit or `x` where the implementation throws).  The answer ends with the kept window and the unwritten count. -/
+def recordRun (toks : List String) : String :=
+  match toks with
+  | mS :: ops =>
+    match mS.toNat? with
+    | none => "bad-request"
+    | some m =>
+      let rec go : Stim.Record.MRec → List String → List String → String
+        | r, [], acc => String.intercalate " " (acc.reverse ++ [s!"s{strOfBits r.storage}", s!"u{r.unwritten}"])
+        | r, t :: ts, acc =>
+          if t == "r0" then go (Stim.Record.step r (.record false)).1 ts acc
+          else if t == "r1" then go (Stim.Record.step r (.record true)).1 ts acc
+          else if t == "f" then
+            let (r1, out) := Stim.Record.step r .flush
+            go r1 ts (s!"w{strOfBits out}" :: acc)
+          else if t.startsWith "m" then go (Stim.Record.step r (.recordMany (bitsOf (t.drop 1).toString))).1 ts acc
+          else if t.startsWith "l" then
+            match (t.drop 1).toString.toNat? with
+            | some k => go r ts ((match r.lookback k with | some true => "1" | some false => "0" | none => "x") :: acc)
+            | none => "bad-request"
+          else "bad-request"
+      go (Stim.Record.MRec.init m) ops []
   | _ => "bad-request"
 
 def xorClosure (vs : List (List Bool)) : List (List Bool) :=
@@ -1432,6 +1501,8 @@ def answer (toks : List String) : String :=
   | "alg" :: rest => algCmd rest
   | "fsim" :: "shots" :: rest => fsimShots rest
   | "fsim" :: "m2d" :: rest => fsimM2d rest
+  | "fsim" :: "dets" :: rest => fsimDets rest
+  | "record" :: "run" :: rest => recordRun rest
   | "demsem" :: "check" :: rest => demsemCheck rest
   | "demsem" :: "decomp" :: rest => demsemDecomp rest
   | "demsample" :: "check" :: rest => demsampleCheck rest
